@@ -247,7 +247,7 @@ var soupContexts = []string{"T | where %s", "T | summarize %s", "T | extend %s",
 
 // soupOps / soupOpContexts: operator-level soups (keywords of every operator's
 // optional parts) spliced where an operator or its arguments are expected.
-var soupOps = []string{"a", "(", ")", ",", "=", "by", "kind", "inner", "on", "with", "nulls", "first", "asc", "|", "count", "1", "'s'", ";", "-", "`asc`", "'desc'", "٣"}
+var soupOps = []string{"a", "(", ")", ",", "=", "by", "kind", "inner", "on", "with", "nulls", "first", "asc", "|", "count", "1", "'s'", ";", "-", "`asc`", "'desc'", "٣", "0x10000000000000001"}
 var soupOpContexts = []string{"T | join %s", "T | join kind = %s", "T | join (U) %s", "T | render %s", "T | render x with (%s", "T | take %s", "T | as %s", "T | %s", "%s", "T | sort by a %s", "T | top %s", "T | summarize a %s", "let %s"}
 
 // soupBrackets: a small alphabet taken to greater length.
